@@ -88,6 +88,10 @@ def genericTys (hasU hasN hasLt : Bool) : List Ty :=
    Ty.app "Wrap" [Ty.app "Wrap" [tyT]], Ty.app "Box" [.dynT false [.mk "Tr2" [.ty tyT]]],
    .dynT false [.mk "Tr2" [.ty tyT]] [["Send"]], .dynT false [.mk "Tr2" [.ty tyT]], Ty.app "Box" [.dynT false [.mk "Tr2" [.ty tyT]] [["Send"], ["'static"]]],
    .path false [.mk "Other" [.assoc "Assoc" tyT]],
+   -- the parameter only inside the generic arguments of a segment that is not the last one
+   .qpath (Ty.simple "u8") false [.mk "Conv" [.ty tyT]] [.mk "Out" []],
+   .path false [.mk "Outer" [.ty tyT], .mk "Inner" []],
+   .qpath (Ty.simple "u8") true [.mk "m" [], .mk "Conv" [.ty (Ty.app "Vec" [tyT])]] [.mk "Out" [.lt "'static"]],
    -- parenthesized path arguments
    Ty.app "Box" [.dynT false [.fn "Fn" [tyT] none]], Ty.app "Box" [.dynT false [.fn "FnMut" [Ty.simple "u8"] (some tyT)] [["Send"]]],
    Ty.app "PhantomData" [.dynT true [.mk "core" [], .mk "ops" [], .fn "Fn" [.ref none false tyT, Ty.simple "u8"] (some (Ty.app "Option" [tyT]))]] ] ++
@@ -137,6 +141,9 @@ def genBound (marker : Nat) : Gen (Option (List BoundArg)) := do
     (2, some [.ty tyT]),
     (1, some [.ty (Ty.app "Vec" [tyT]), .pred (.ty [] (Ty.app "Option" [tyT]) [.trait false [] (Ty.simple ("M" ++ toString marker)), .lt "'static"]), .dots]),
     (1, some [.dots, .ty (Ty.simple "u8")]),
+    -- several bare types in one list; `..` in the middle of a list
+    (1, some [.ty tyT, .ty (Ty.app "Vec" [tyT]), .ty (Ty.simple "u8"), .ty (Ty.app "Option" [tyT])]),
+    (1, some [.ty tyT, .dots, .pred (markerPred marker)]),
     (1, some [.pred (.lt "'a" ["'static"])]),
     (1, some [.pred (.ty ["'x"] (.ref (some "'x") false tyT) [.trait false [] (Ty.simple ("M" ++ toString marker))])])]
 
